@@ -618,7 +618,9 @@ func cmdCheck(args []string) int {
 		nviol++
 		exit = 1
 		fmt.Printf("violation: %s\n", f.v)
-		fmt.Printf("VIOLATION property=%s replay=%s\n", f.v.Property, f.trace)
+		// the line names the property this check decides; the oracle that fired (it may belong to a sibling
+		// property whose invariant this check also watches) is in the "violation:" line above
+		fmt.Printf("VIOLATION property=%s replay=%s\n", p.ID, f.trace)
 	}
 
 	// evidence
@@ -739,7 +741,7 @@ func cmdReplay(args []string) int {
 			fmt.Printf("KNOWN-FINDING: property=%s %s [%s]\n", e.Property, e.What, e.Signature)
 			continue
 		}
-		fmt.Printf("VIOLATION property=%s replay=%s\n", v.Property, args[0])
+		fmt.Printf("VIOLATION property=%s replay=%s\n", id, args[0])
 		exit = 1
 	}
 	return exit
